@@ -59,6 +59,39 @@ class NotFound(KeyError):
     """a function/class under contract does not exist in the tree under check"""
 
 
+class _DropLogging(ast.NodeTransformer):
+    """What the extraction drops (assumption A-LOG: logging calls neither raise nor mutate library state): every statement `settings.logger.<level>(...)`
+    and every `if settings.debugging:` block that consists of such statements only.  Everything else of the source is kept as written."""
+
+    @staticmethod
+    def _is_log(st):
+        return isinstance(st, ast.Expr) and isinstance(st.value, ast.Call) and ast.unparse(st.value.func).startswith("settings.logger.")
+
+    def _body(self, body, anchor):
+        out = []
+        for st in body:
+            st = self.visit(st)
+            if st is None or self._is_log(st):
+                continue
+            if isinstance(st, ast.If) and ast.unparse(st.test) == "settings.debugging" and not st.orelse and all(isinstance(x, ast.Pass) for x in st.body):
+                continue
+            out.append(st)
+        if not out:
+            out = [ast.copy_location(ast.Pass(), anchor)]
+        return out
+
+    def generic_visit(self, node):
+        for field in ("body", "orelse", "finalbody"):
+            b = getattr(node, field, None)
+            if isinstance(b, list) and b and isinstance(b[0], ast.stmt):
+                setattr(node, field, self._body(b, b[0]))
+            elif isinstance(b, list) and field == "body" and not b:
+                pass
+        for h in getattr(node, "handlers", []) or []:
+            h.body = self._body(h.body, h.body[0])
+        return node
+
+
 class Source:
     def __init__(self, root=None):
         self.root = root or REPO
@@ -69,7 +102,7 @@ class Source:
                 m = fn[:-3]
                 src = open(os.path.join(self.pkg, fn), encoding="utf-8").read()
                 self.text[m] = src
-                self.mod[m] = ast.parse(src)
+                self.mod[m] = _DropLogging().visit(ast.parse(src))
         for m, tree in self.mod.items():
             self._index(m, tree.body, prefix="")
         self._canon_locals()
